@@ -268,6 +268,35 @@ func (x *Exec) frontBuiltin(env *SpecEnv, st *State, name string, args []TV) (TV
 			return TV{VScalar{App(SStr, f, env.term(args[0]))}, types.Typ[types.String]}, true
 		}
 		return TV{}, false
+	case "funcname":
+		// funcname(f): the name of the function a function value denotes ("" when unknown)
+		if len(args) == 1 {
+			if cl, ok := x.force(st, args[0].V).(VClosure); ok && cl.Fn != nil {
+				return TV{VScalar{x.sym.StrLit(cl.Fn.Name())}, types.Typ[types.String]}, true
+			}
+			return TV{VScalar{x.sym.StrLit("")}, types.Typ[types.String]}, true
+		}
+		return TV{}, false
+	case "callswith":
+		// callswith("name", i, v): how many recorded calls of name have argument i (receiver first) equal to
+		// the constant v (decided syntactically on integer / string literals)
+		if n, ok := litArg(0); ok && len(args) == 3 {
+			i, ok2 := intArg(1)
+			want, ok3 := x.force(st, args[2].V).(VScalar)
+			if !ok2 || !ok3 {
+				return TV{}, false
+			}
+			cnt := 0
+			for _, r := range calls(n) {
+				if i >= 0 && i < len(r.Args) {
+					if got, ok := x.force(st, r.Args[i].V).(VScalar); ok && got.T.S == want.T.S {
+						cnt++
+					}
+				}
+			}
+			return TV{VScalar{IntLit(int64(cnt))}, intT}, true
+		}
+		return TV{}, false
 	case "jwtverifies":
 		// jwtverifies(s): the token s is well formed and its signature verifies (what jwt.ParseWithClaims decides)
 		if len(args) == 1 {
